@@ -181,6 +181,8 @@ class UnitBuilder:
                 ast = parse_body('return ' + init + ';', self._typenames(), self._templates())
                 e = ast[1][0][1]
                 txt = ctx.em(e)
+                if t == 'auto':
+                    t = ctx.typeof(e)
                 self.const_text.append('#define %s ((%s)(%s))' % (cname, ctx.ctype(t), txt))
                 consts[nm] = (cname, t)
 
@@ -191,7 +193,7 @@ class UnitBuilder:
         return set(self.fam.templates)
 
     # ------------------------------------------------------------ functions
-    def extract(self, key):
+    def extract(self, key, pack=None):
         fd = self.funcs[key]
         src = source(self.repo, fd.src)
         scope = src.find_class(fd.cls, fd.cls_ordinal) if fd.cls else None
@@ -213,6 +215,7 @@ class UnitBuilder:
         ctx.base_alias = fd.base_alias
         ctx.lambda_cfg = fd.lambdas
         ctx.selfname = fd.selfname
+        ctx.pack = pack
         for p, t in fd.params.items():
             ctx.env[p] = t
         for p, t in fd.env.items():
@@ -362,6 +365,8 @@ class Spec:
                     raise SystemExit('duplicate spec section %r in %s' % (cur, path))
                 self.sections[cur] = {'text': '', 'file': path, 'line': ln + 1}
             elif cur is not None:
+                if line.lstrip().startswith('//'):
+                    line = '\n'      # line comments are not part of a section (keeps line numbers)
                 self.sections[cur]['text'] += line
         return self
 
